@@ -8,7 +8,8 @@ PROPS["C08"] = P(
     "Strata: b in {1,2,3,7,8,9,15,16,31,32,63,64} (thorough: every b in 1..=W::BITS) x n in {1000, 10^5} (debug build: {1000, 10^4}; thorough: + 10^6) for the bit-field variants, W::BITS for the slice variants; "
     "members-only cases at n in {0,1,2,3,10,99,100,101,300} x width classes and at the builder's regime edges 10^4..200000 (thorough: to 800001); random rounds on top. "
     "Err on distinct keys, a panic or exceeding the attempt bound of C07 (20000 rewinds for n <= 5000, 200 above) are violations. "
-    "distinct_nontrivial = number of distinct (variant | group | b | n class | hint kind | store | rate-or-members) cells whose build succeeded on n >= 1 keys and had all members checked (and, for rate cells, the band judged)",
+    "distinct_nontrivial = number of distinct (variant | group | b | n class | hint kind | store | rate-or-members) cells whose build succeeded on n >= 1 keys and had all members checked (and, for rate cells, the band judged)"
+    ' Key type &[u32]. ',
     dict(builds=["DBG", "UBC"]),
     dict(builds=["DBG", "UBC"]),
     hang="violation",
